@@ -371,7 +371,14 @@ def r3(ctx):
 def r4(ctx):
     b = ctx.fn(QSM)
     ctx.count(4)
-    sp = one(b.calls(r"str>::split$"), "split('&')")
+    splits = b.calls(r"str>::split$")
+    amp = [x for x in splits if const_value(op_const(x[1]["args"][1]) or {}) == ord("&")]
+    eqs_ = [x for x in splits if const_value(op_const(x[1]["args"][1]) or {}) == ord("=")]
+    if eqs_:
+        # `component.split('=')` cuts at EVERY '=': the value loses everything after its second '='
+        yield VIOL("C10-R4", "qsm/pair-separator", "segments are split at every '=' (`split('=')`), not at the FIRST one (splitn(2, '=') / split_once('=')): `a=b=c` loses `=c`", where=b.span_of_block(eqs_[0][0]))
+        return
+    sp = one(amp if amp else splits, "split('&')")
     if const_value(op_const(sp[1]["args"][1]) or {}) != ord("&"):
         yield VIOL("C10-R4", "qsm/segment-separator", "query string is not split on '&'", where=b.span_of_block(sp[0]))
     sn = b.calls(r"str>::splitn$")
